@@ -273,6 +273,7 @@ fn main() {
     for s in &lits {
         let inp = || format!("{:?}", s);
         emit!(c, "from_str", &inp, format!("{:?}", catch(|| Decimal::from_str(s).map(|d| (d.coefficient(), d.n_frac_digits())))));
+        #[cfg(feature = "hidden-parse")]
         emit!(c, "str_to_dec", &inp, format!("{:?}", catch(|| fpdec_core::str_to_dec(s))));
     }
     // rejection of n > 18 (a debug_assert-only guard would differ between profiles)
